@@ -96,3 +96,23 @@ Example C06_example :
   let x := [qz 0; qz 1; qz 3; qz 4] in let y := [qz 2; qz 6; qz 1; qz 3] in
   Qc_eqb (nthq 8 (snd (rfa_linear_fixed x y 8 1 None))) (qz 2 + (qz 6 - qz 2) * qz 1 / (qz 1 + qz 2)) = true.
 Proof. vm_compute. reflexivity. Qed.
+
+(** ---- the rfa() methods, REGENERATED from rfa.py as glue terms (Gen/RfaGlue.v) and run by the interpreter of Model/GlueFun.v with the
+     leaves of Model/GlueLeaves.v (IntervalArray accessors, shape functions, oversampling / extension helpers, adaptive windows mean
+     their models), are the write-loop model of Model/Rfa.v ---- *)
+From TW Require Import Model.GlueLeaves Gen.RfaGlue Proofs.GlueRfaAdaptiveProofs.
+Open Scope string_scope.
+(** the two adaptive strategies (the window lists come from get_adaptive_transition_points, whose arithmetic is regenerated
+    in Gen/Kernels.v: C06_generated_adaptive_split) *)
+Theorem C06_glue_rfa_linear_adaptive : forall gpow x y n alpha a, (2 <= n)%nat -> (2 <= length x)%nat ->
+  outcome_arr_pair (call_meth (rfa_callf (fun t => t) (fun t => t)) (rfa_methf gpow x y n) no_apply no_pow rfa_methods
+     "LinearAdaptiveRFA.rfa" (rfa_attrs x y n (window_a n alpha a) 0 0 0) []) = Ok (rfa_linear_adaptive gpow x y n alpha a).
+Proof. exact glue_rfa_linear_adaptive. Qed.
+Print Assumptions C06_glue_rfa_linear_adaptive.
+
+Theorem C06_glue_rfa_exp_adaptive : forall pw gpow x y n alpha beta a, (2 <= n)%nat -> (2 <= length x)%nat ->
+  outcome_arr_pair (call_meth (rfa_callf pw (fun t => t)) (rfa_methf gpow x y n) no_apply no_pow rfa_methods
+     "ExpAdaptiveRFA.rfa" (rfa_attrs x y n (window_a n alpha a) 0 0 beta) []) = Ok (rfa_exp_adaptive pw gpow x y n alpha beta a).
+Proof. exact glue_rfa_exp_adaptive. Qed.
+Print Assumptions C06_glue_rfa_exp_adaptive.
+Close Scope string_scope.
